@@ -74,6 +74,8 @@ package common
 //@ ghost func Enc(b []byte) string
 //@ ghost func Dec(s string) []byte { return HexDec(s[2:]) }
 //@ ghost func DecOK(s string) bool { return len(s) >= 2 && HexOK(s[2:]) }
+// KeyBytesOf: the first result of DecodeFromString (hex.DecodeString returns the bytes decoded before an error)
+//@ ghost func KeyBytesOf(s string) []byte { return __ite(len(s) >= 2, Dec(s), []byte(nil)) }
 //@ axiom[enc-dec]   forall b []byte :: DecOK(Enc(b)) && len(Dec(Enc(b))) == len(b) && (len(b) > 0 ==> __seqeq(Dec(Enc(b)), b))
 //@ axiom[enc-upper] forall b []byte :: Upper(Enc(b)) == Enc(b) && len(Enc(b)) >= 2
 //@ import "strings"
@@ -87,5 +89,5 @@ package common
 //@ func DecodeFromString(hexString string) ([]byte, error)
 //@   safety on
 //@   modifies nothing
-//@   ensures[dec] ret1 == nil ==> DecOK(hexString) && __seqeq(ret0, Dec(hexString))
-//@   ensures[err] ret1 != nil ==> !DecOK(hexString)
+//@   ensures[ok]  (ret1 == nil) == DecOK(hexString)
+//@   ensures[val] __seqeq(ret0, KeyBytesOf(hexString))
